@@ -412,13 +412,23 @@ def probe_digests(only: str | None = None) -> dict:
         # build the requested probe lazily by running the generator of all probes up to it
         for k, thunk in _probe_thunks():
             if k == only:
-                out[k] = thunk()
+                out[k] = _digest(thunk)
                 break
     return out
 
 
+def _digest(thunk) -> str:
+    """A probe that raises has that as its result (it must then raise in a fresh process too)."""
+    try:
+        return thunk()
+    except (NameError, UnboundLocalError, ImportError):
+        raise
+    except Exception as e:  # noqa: BLE001
+        return f"raised:{type(e).__name__}"
+
+
 def _probe_digests_all() -> dict:
-    return {k: thunk() for k, thunk in _probe_thunks()}
+    return {k: _digest(thunk) for k, thunk in _probe_thunks()}
 
 
 def _probe_thunks():
@@ -567,6 +577,41 @@ def _probe_thunks():
         write_single(frame, out)
         return hashlib.sha256(out.getvalue()).hexdigest()
 
+    def default_many(api, how):
+        def thunk():
+            # seven statements through an entry point that makes up its own options: where the
+            # frames are cut (statements per frame) must not depend on what ran before
+            from mc import jspec, jwire  # noqa: PLC0415
+
+            seq = [(I(f"http://a/s{i}"), I("http://a/p"), L(str(i))) for i in range(7)]
+            if how == "flat":
+                data = (DR.g_write if api == "generic" else DR.r_write)(
+                    seq, "triple", _opts("triple"), "flat_to_file_default")
+            elif api == "generic":
+                data = DR.g_write(seq, "triple", _opts("triple"), "grouped_to_file_default")
+            else:
+                out = io.BytesIO()
+                DR.r_graph(seq).serialize(destination=out, format="jelly")
+                data = out.getvalue()
+            _, per = jspec.decode_frames(jwire.read_delimited(data))
+            cuts = [sum(1 for e in evs if e[0] == "st") for evs in per]
+            return hashlib.sha256(repr((cuts, len(data))).encode()).hexdigest()
+        return thunk
+
+    def prefixless(api):
+        def thunk():
+            # a stream written with the prefix table switched off
+            opts = DR.make_options("triple", (8, 0, 2), 250, True, generalized=False,
+                                   rdf_star=False)
+            data = DR.g_write(S3, "triple", opts, "stream_frames_gen")
+            evs = (DR.g_read if api == "generic" else DR.r_read)(data, "flat")
+            return hashlib.sha256(repr(evs).encode()).hexdigest()
+        return thunk
+
+    for api in ("generic", "rdflib"):
+        yield f"{api}-prefixless-parse", prefixless(api)
+        yield f"{api}-default-options-flat", default_many(api, "flat")
+        yield f"{api}-default-options-container", default_many(api, "container")
     yield "generic-single-frame-with-metadata", single_with_metadata
     yield "generic-empty-sink", empty_sink
     for api in ("generic", "rdflib"):
@@ -687,6 +732,44 @@ def history_actions() -> dict:
         except Exception:  # noqa: BLE001
             pass
 
+    def guess_mutate(api):
+        """A caller takes the options the library would guess for a container, adjusts them for
+        a stream of its own and writes that stream."""
+        def act():
+            seq = [(I(f"http://h/s{i}"), I("http://h/p"), L(str(i))) for i in range(6)]
+            out = io.BytesIO()
+            if api == "generic":
+                from pyjelly.integrations.generic import serialize as ser  # noqa: PLC0415
+
+                box = DR.g_sink(seq)
+            else:
+                from pyjelly.integrations.rdflib import serialize as ser  # noqa: PLC0415
+
+                box = DR.r_graph(seq)
+            opts = ser.guess_options(box)
+            opts.frame_size = 4
+            ser.grouped_stream_to_file((b for b in [box]), out, options=opts)
+        return act
+
+    def corrupt_prefixless(api):
+        """A parser fails on a damaged stream whose prefix table is switched off but which
+        refers to prefix 7."""
+        def act():
+            from mc import jwire  # noqa: PLC0415
+
+            rows = [jwire.mkrow("options", {"physical_type": 1, "max_name_table_size": 8,
+                                            "max_prefix_table_size": 0,
+                                            "max_datatype_table_size": 2, "version": 1}),
+                    jwire.mkrow("name", {"id": 0, "value": "http://a/x"}),
+                    jwire.mkrow("triple", {"s": ("iri", 7, 0), "p": ("iri", 0, 1),
+                                           "o": ("iri", 0, 1)})]
+            data = jwire.write_delimited([jwire.enc_frame(rows)])
+            try:
+                (DR.g_read if api == "generic" else DR.r_read)(data, "flat")
+            except Exception:  # noqa: BLE001
+                pass
+        return act
+
     def subtype_stream():
         """A stream with a logical sub-type is merely constructed."""
         for cls, lt in (("triple", 13), ("quad", 114), ("quad", 14)):
@@ -695,6 +778,10 @@ def history_actions() -> dict:
 
     return {
         "subtype-stream": subtype_stream,
+        "guess-mutate-generic": guess_mutate("generic"),
+        "guess-mutate-rdflib": guess_mutate("rdflib"),
+        "corrupt-prefixless-generic": corrupt_prefixless("generic"),
+        "corrupt-prefixless-rdflib": corrupt_prefixless("rdflib"),
         "rejected-flat-generic": rejected_flat,
         "langcase-generic": langcase("generic"),
         "langcase-rdflib": langcase("rdflib"),
